@@ -75,3 +75,20 @@ Proof.
   - apply plain_document_additive_in_rows. exact Hpl.
   - intros src sr. now rewrite map_app.
 Qed.
+
+(* C10 / C11: the engine's result for a plain document depends only on the SETS of rows delivered for its sources: two deliveries
+   (two source formats, two orders, with or without repeated rows) that hand over the same rows give the same statements *)
+Theorem engine_plain_document_depends_on_delivered_row_sets cfg fe scfg raw1 raw2 d rules l1 l2 :
+  cfg_agree cfg scfg -> c_nquads cfg = s_nquads scfg -> s_na scfg = c_na cfg ->
+  forallb plain_tm d = true -> normalise d = Ok rules -> (forall rl, In rl rules -> simple_rule rl) ->
+  (forall raw rl rw n, In raw [raw1; raw2] -> In rl rules -> In rw (raw (r_src rl)) -> In n (rule_names rl) -> assoc n rw <> None) ->
+  (forall src rw, In rw (raw1 src) <-> In rw (raw2 src)) ->
+  materialize_rules cfg fe rules (delivered cfg raw1) = Ok l1 -> materialize_rules cfg fe rules (delivered cfg raw2) = Ok l2 ->
+  forall x, In x l1 <-> In x l2.
+Proof.
+  intros Hcfg Hnq Hna Hpl Hn Hs Hcols Hsame M1 M2 x.
+  rewrite (engine_document_is_spec_document cfg fe scfg raw1 Hcfg Hnq Hna d rules l1 Hpl Hn Hs (fun rl rw n => Hcols raw1 rl rw n (or_introl eq_refl)) M1 x).
+  rewrite (engine_document_is_spec_document cfg fe scfg raw2 Hcfg Hnq Hna d rules l2 Hpl Hn Hs (fun rl rw n => Hcols raw2 rl rw n (or_intror (or_introl eq_refl))) M2 x).
+  apply plain_document_depends_on_row_sets; [exact Hpl|]. intros src sr. unfold spec_tables. rewrite !in_map_iff.
+  split; intros (rw & E & Hrw); exists rw; split; auto; now apply Hsame.
+Qed.
